@@ -233,7 +233,8 @@ def _main(prop_id: str, args, seed: int, work: str, t0: float) -> int:
     wall = time.time() - t0
     harness = list(rec.harness_errors)
     # runs against another tree (VERIF_REPO, sensitivity audits) never write into the committed directories
-    alt = None if core.REPO == "/repo" else os.path.join(VERIF_DIR, ".work", "alt-%d" % os.getpid())
+    # ... and neither does a partial run (--only): its evidence would describe a part of the check
+    alt = None if core.REPO == "/repo" and not args.only else os.path.join(VERIF_DIR, ".work", "alt-%d" % os.getpid())
     fdir = os.path.join(rdir, "found") if alt is None else os.path.join(alt, "found", prop_id)
     for sig, frec in sorted(rec.failures.items()):
         if frec["fail"]["sub_oracle"] == "HARNESS":
@@ -249,7 +250,7 @@ def _main(prop_id: str, args, seed: int, work: str, t0: float) -> int:
                 f, indent=1, sort_keys=True)
         violations.append((os.path.relpath(path, VERIF_DIR), frec["fail"]))
 
-    floors = getattr(mod, "FLOORS", {})
+    floors = getattr(mod, "FLOORS", {}) if not args.only else {}
     floor_msgs = []
     if rec.evaluations and not rec.budget_skipped and not violations:
         for lab, share in floors.items():
